@@ -486,6 +486,13 @@ func specLvalComps(e *SExpr, env map[string]types.Type, out compSet) {
 			mapSComps(u, out)
 		}
 	case SCall:
+		if e.Name == "deref" && len(e.Args) == 1 {
+			if t := specStaticType(e.Args[0], env); t != nil {
+				if p, ok := t.Underlying().(*types.Pointer); ok {
+					compsOfStore(p.Elem(), cellComp(p.Elem()), out)
+				}
+			}
+		}
 		if len(e.Args) == 1 && ghostMapSorts[e.Name] != "" {
 			out.add(sComp{Name: "ghost." + e.Name, Kind: scGhost, Sort: ghostMapSorts[e.Name]})
 		}
@@ -583,6 +590,25 @@ func (e *Engine) constByName(name string) *types.Const {
 	for _, p := range e.pkgs {
 		for _, imp := range p.Types.Imports() {
 			if c, ok := imp.Scope().Lookup(name).(*types.Const); ok && strings.HasPrefix(imp.Path(), "github.com/conduitio/") {
+				return c
+			}
+		}
+	}
+	return nil
+}
+
+// namedDynContract: a (trusted) contract for a dynamic call through a package
+// variable of func type, keyed by its selector name, e.g. "$global.cerrors.As".
+func (e *Engine) namedDynContract(cc *ssa.CallCommon) *Contract {
+	if cc.IsInvoke() || cc.StaticCallee() != nil {
+		return nil
+	}
+	if _, ok := cc.Value.(*ssa.Builtin); ok {
+		return nil
+	}
+	for _, n := range callNames(cc) {
+		if strings.HasPrefix(n, "$global.") {
+			if c, ok := e.contracts[n]; ok {
 				return c
 			}
 		}
